@@ -283,7 +283,7 @@ replay = P.replay
 
 
 # ------------------------------------------------------------------ the same numbers stored in another dtype
-from oracles import dtype_independence, merge_oracle
+from oracles import dtype_independence, merge_oracle, history_independence
 from common import np, dnp
 from dnplab.math import relaxation as _R
 DTYPE_CASES = [("fit-t1", lambda d, dim: dnp.fit(_R.t1, d, dim, (1.0, -3.0, 3.0)), "t2"),
@@ -298,4 +298,6 @@ def run(tier, seed, escalate=False):
     the processed axis give the result of the float64 object (a dtype the function refuses is not judged)"""
     res = _run_before_dtype(tier, seed, escalate)
     f, n = dtype_independence("C18", DTYPE_CASES, seed, dim_positions=(1,) if tier == "quick" and not escalate else (0, 1, 2))
-    return merge_oracle(res, f, n, "storage_dtype_variants")
+    res = merge_oracle(res, f, n, "storage_dtype_variants")
+    f, n = history_independence("C18", DTYPE_CASES, seed)
+    return merge_oracle(res, f, n, "call_history_cases")
